@@ -46,7 +46,9 @@ func c06BodyFor(header, marker string) ([]byte, bool) {
 var c06ObjSchema = func(required []any) map[string]any {
 	s := m("type", "object", "properties", m(
 		"i", m("type", "integer"), "s", m("type", "string"), "b", m("type", "boolean"), "a", m("type", "array", "items", m("type", "integer")),
-		"ro", m("type", "string", "readOnly", true), "wo", m("type", "string", "writeOnly", true)))
+		"ro", m("type", "string", "readOnly", true), "wo", m("type", "string", "writeOnly", true),
+		// a readOnly property with a default: a request that does not carry it is complete (nothing is filled in for the client)
+		"rod", m("type", "string", "readOnly", true, "default", "server-side")))
 	if len(required) > 0 {
 		s["required"] = required
 	}
